@@ -40,3 +40,18 @@ func TestProbeC31UpdateOfUnboundWorkloadKeepsQuota(t *testing.T) {
 		assert.EqualValues(t, 50000, client.updated.Resources.CPUQuota, "an unbound workload with CPU limit 0.5 must get quota 0.5 x period; it got %d (−1 = unlimited)", client.updated.Resources.CPUQuota)
 	}
 }
+
+// C31: a bound workload whose CPU limit is 0 (cpu-bind with cpu-request 1, cpu-limit 0 passes validation; the engine
+// parameter "cpu" is the limit) must stay pinned to its cores when its resources are updated.
+func TestProbeC31UpdateOfBoundWorkloadWithZeroLimitStaysPinned(t *testing.T) {
+	client := &probeClient{}
+	cfg := coretypes.Config{}
+	cfg.Scheduler.ShareBase = 100
+	e := &Engine{client: client, config: cfg}
+	params := resourcetypes.Resources{"cpumem": resourcetypes.RawParams{"cpu": 0.0, "cpu_map": map[string]any{"2": int64(100)}, "numa_node": "1", "memory": int64(1) << 30, "remap": false}}
+	assert.NoError(t, e.VirtualizationUpdateResource(context.Background(), "id", params))
+	if assert.NotNil(t, client.updated) {
+		assert.Equal(t, "2", client.updated.Resources.CpusetCpus, "the workload is bound to core 2; after the update its cpuset is %q", client.updated.Resources.CpusetCpus)
+		assert.Equal(t, "1", client.updated.Resources.CpusetMems)
+	}
+}
